@@ -6,7 +6,6 @@ usage: sweep.py phase1 [N-sample]      first-order mutants -> go build + the lib
        sweep.py refactor <dirs>        behaviour-preserving patches (harmless/*): suite, judges, correspondence, generated files
        sweep.py tiebuild <dirs>        the same patches: regenerate INTO lean/Astits/Generated and build (sequential; restores)
        sweep.py report
-#!/usr/bin/env python3
 """Mechanical mutation sweep (developer tool, not a registered check; DESIGN.md Appendix F).
 
 phase1: every first-order mutant of mutgen -> scratch copy of /repo under /tmp/mut -> go build, then the repository's own
